@@ -103,8 +103,16 @@ def stream_a(rng, n):
 def snapshot(solver):
     import torch
     conds = []
+
+    def describe(c):
+        d = {k: (id(v), type(v).__name__, v if isinstance(v, (int, float, str, type(None))) else None) for k, v in c.__dict__.items()}
+        # sub-conditions of an ensemble are part of the solver's conditions too
+        subs = c.__dict__.get('conditions')
+        if isinstance(subs, (list, tuple)):
+            d['__sub__'] = [describe(x) for x in subs]
+        return d
     for c in solver.conditions:
-        conds.append({k: (id(v), type(v).__name__, v if isinstance(v, (int, float, str, type(None))) else None) for k, v in c.__dict__.items()})
+        conds.append(describe(c))
     return dict(conds=conds, nets=[{k: v.clone() for k, v in n.state_dict().items()} for n in solver.nets],
                 best=None if solver.best_nets is None else [{k: v.clone() for k, v in n.state_dict().items()} for n in solver.best_nets],
                 hist={k: list(v) for k, v in solver.metrics_history.items()}, opt_id=id(solver.optimizer),
@@ -133,11 +141,18 @@ def make_real(kind, rng, opt_name, n_valid=4):
     torch.manual_seed(rng.randrange(1 << 30))
     lr = rng.choice([1e-2, 3e-3, 5e-2])
     mk_opt = lambda nets: (torch.optim.SGD([p for n in nets for p in n.parameters()], lr=lr, momentum=rng.choice([0.0, 0.0, 0.9])) if opt_name == 'SGD'
+                           else E.ClipSGD([p for n in nets for p in n.parameters()], lr=lr) if opt_name == 'ClipSGD'
                            else torch.optim.Adam([p for n in nets for p in n.parameters()], lr=lr))
     if kind == 'Solver1D':
         nets = [FCNN(1, 1, hidden_units=(4,))]
         s = Solver1D(E.ode, [IVP(0., 1.)], t_min=0., t_max=1., nets=nets, optimizer=mk_opt(nets), n_batches_valid=n_valid,
                      train_generator=Generator1D(8, 0., 1.), valid_generator=Generator1D(8, 0., 1., method='equally-spaced'))
+        coords = [torch.linspace(0, 1, 5)]
+    elif kind == 'Solver1D-ensemble':
+        from neurodiffeq.conditions import EnsembleCondition
+        nets = [FCNN(1, 2, hidden_units=(4,))]
+        s = Solver1D(E.ode_ens, [EnsembleCondition(IVP(0., 0.), IVP(0., 1.))], t_min=0., t_max=1., nets=nets, optimizer=mk_opt(nets),
+                     n_batches_valid=n_valid, train_generator=Generator1D(8, 0., 1.), valid_generator=Generator1D(8, 0., 1., method='equally-spaced'))
         coords = [torch.linspace(0, 1, 5)]
     elif kind == 'Solver1D-2eq':
         nets = [FCNN(1, 1, hidden_units=(4,)) for _ in range(2)]
@@ -167,8 +182,8 @@ def stream_real(rng, n, shim):
     bad, runs = [], 0
     stats = dict(save_ok=0, save_failed=0, loads=0)
     for i in range(n):
-        kind = rng.choice(['Solver1D', 'Solver1D-2eq', 'Solver2D', 'Bundle', 'Bundle-param'])
-        opt = rng.choice(['SGD', 'Adam'])
+        kind = rng.choice(['Solver1D', 'Solver1D-2eq', 'Solver2D', 'Bundle', 'Bundle-param', 'Solver1D-ensemble']) if i >= 2 else ['Solver1D-ensemble', 'Solver1D'][i]
+        opt = rng.choice(['SGD', 'Adam', 'ClipSGD']) if i >= 2 else ['SGD', 'ClipSGD'][i]
         ctx = dict(kind=kind, optimizer=opt, shim=shim)
         with warnings.catch_warnings():
             warnings.simplefilter('ignore')
@@ -242,11 +257,12 @@ def stream_real(rng, n, shim):
                         os.remove(path)
                 if type(loaded) is not type(cur):
                     bad.append(dict(ctx, violated='loaded solver is of a different kind', got=type(loaded).__name__))
+                skw = dict(no_reshape=True) if 'ensemble' in kind else {}      # a 2-column unknown cannot take the shape of the coordinate
                 for best in (False, True):
                     if best and cur.best_nets is None:
                         continue
-                    a = cur.get_solution(best=best)(*coords)
-                    b = loaded.get_solution(best=best)(*coords)
+                    a = cur.get_solution(best=best)(*coords, **skw)
+                    b = loaded.get_solution(best=best)(*coords, **skw)
                     a, b = (a if isinstance(a, list) else [a]), (b if isinstance(b, list) else [b])
                     if not all(torch.equal(x, y) for x, y in zip(a, b)):
                         bad.append(dict(ctx, violated=f'loaded {"best" if best else "latest"} solution evaluates differently'))
@@ -281,6 +297,71 @@ def stream_real(rng, n, shim):
     return bad, runs, stats
 
 
+def checkpoint_stream(rng, n):
+    """CheckpointCallback (dumps get_internals('all') each time it fires): a twin solver trained without it must end in the
+    same state (checkpointing does not alter the solver), and the last dump describes the solver at the time it was written"""
+    import dill
+    import glob
+    import shutil
+    import torch
+    from neurodiffeq.callbacks import CheckpointCallback, PeriodLocal
+    bad, stats = [], dict(runs=0, checkpoints_read=0, dump_failed=0)
+    for i in range(n):
+        kind = rng.choice(['Solver1D', 'Solver2D', 'Bundle'])
+        opt = rng.choice(['SGD', 'Adam'])
+        nv = rng.choice([4, 1, 0])
+        epochs = rng.randint(1, 4)
+        period = rng.randint(1, 2)
+        ctx = dict(kind=kind, optimizer=opt, n_batches_valid=nv, epochs=epochs, checkpoint_every=period)
+        with warnings.catch_warnings():
+            warnings.simplefilter('ignore')
+            seed_ = rng.randrange(1 << 30)
+            twins = []
+            for with_ckpt in (True, False):
+                torch.manual_seed(seed_)
+                r2 = random.Random(seed_)
+                s, coords = make_real(kind, r2, opt, n_valid=nv)
+                torch.manual_seed(seed_ + 1)
+                d = tempfile.mkdtemp(prefix='verif-c18-ckpt-')
+                dill.settings['byref'] = True
+                try:
+                    cbs = [CheckpointCallback(d).conditioned_on(PeriodLocal(period))] if with_ckpt else []
+                    s.fit(epochs, callbacks=cbs, tqdm_file=None)
+                except Exception as e:
+                    bad.append(dict(ctx, violated='fit() with a CheckpointCallback raised', error=f'{type(e).__name__}: {e}'))
+                    stats['dump_failed'] += 1
+                    shutil.rmtree(d, ignore_errors=True)
+                    twins = None
+                    break
+                finally:
+                    dill.settings['byref'] = False
+                files = sorted(glob.glob(os.path.join(d, '*.internals')))
+                if with_ckpt and files and epochs % period == 0:
+                    try:
+                        obj = dill.load(open(files[-1], 'rb'))
+                        stats['checkpoints_read'] += 1
+                        if obj.get('global_epoch') != s.global_epoch or obj.get('lowest_loss') != s.lowest_loss:
+                            bad.append(dict(ctx, violated='checkpoint written after the last epoch does not describe the solver',
+                                            checkpoint=dict(global_epoch=obj.get('global_epoch'), lowest_loss=obj.get('lowest_loss')),
+                                            solver=dict(global_epoch=s.global_epoch, lowest_loss=s.lowest_loss)))
+                        for a, b in zip(obj.get('nets', []), s.nets):
+                            if any(not torch.equal(x, y) for x, y in zip(a.state_dict().values(), b.state_dict().values())):
+                                bad.append(dict(ctx, violated='networks in the last checkpoint differ from the solver\'s networks'))
+                                break
+                    except Exception as e:
+                        bad.append(dict(ctx, violated='checkpoint file cannot be read back', error=f'{type(e).__name__}: {e}'))
+                shutil.rmtree(d, ignore_errors=True)
+                twins.append(s)
+            if twins:
+                a, b = twins
+                same = (a.metrics_history == b.metrics_history and a.lowest_loss == b.lowest_loss and a.global_epoch == b.global_epoch
+                        and all(torch.equal(x, y) for n1, n2 in zip(a.nets, b.nets) for x, y in zip(n1.state_dict().values(), n2.state_dict().values())))
+                if not same:
+                    bad.append(dict(ctx, violated='training with a CheckpointCallback ends in a different state than training without it'))
+                stats['runs'] += 1
+    return bad, stats
+
+
 def check(tier, seed):
     rep = Report(PID, tier, seed)
     ok, hits = kernel_phase(rep, 'NdeVerif.Proofs.C18', 'NdeVerif.C18', THEOREMS)
@@ -296,13 +377,15 @@ def check(tier, seed):
     b_bad, b_runs, b_stats = stream_real(rng, 6 if tier == 'quick' else 40, shim=False)
     c_bad, c_runs, c_stats = stream_real(rng, 8 if tier == 'quick' else 60, shim=True)
     bad += [dict(stream='as-installed', **b) for b in b_bad] + [dict(stream='byref-shim', **c) for c in c_bad]
+    k_bad, k_stats = checkpoint_stream(rng, 4 if tier == 'quick' else 30)
+    bad += [dict(stream='checkpoint-callback', **b) for b in k_bad]
     n_ops = sum(len(l) for l, _ in scripts)
     rep.coverage.update(programs=len(scripts) + b_runs + c_runs, traces_validated_against_impl=len(scripts) - len(mism),
                         evaluations=n_ops + b_runs + c_runs, distinct_nontrivial=len({tuple(l) for l, _ in scripts if any(x == 'saveload' for x in l)}) + b_runs + c_runs,
                         rule='stream A: scripted solvers (Solver1D/Solver2D) through random fit / save / save+load sequences, every dump and event log '
                              'compared exactly with the Lean model; non-trivial = contains a load. Streams B/C: real networks, conditions with numbers '
                              'and with functions/lambdas, SGD/Adam, Solver1D/Solver2D/BundleSolver1D, dill as installed (save raises) and with byref=True',
-                        input_distribution=dict(as_installed=b_stats, byref_shim=c_stats, driver_seconds=round(dt, 1),
+                        input_distribution=dict(as_installed=b_stats, byref_shim=c_stats, checkpoint_callback=k_stats, driver_seconds=round(dt, 1),
                                                 scripted_loads=sum(x == 'saveload' for l, _ in scripts for x in l)))
     rep.samples = [dict(script=scripts[0][0], solver=scripts[0][1])]
     rep.assumptions = ['dill byte fidelity, the file system and the hub upload path are outside the model (runtime)',
